@@ -48,13 +48,13 @@ func noDup(l []bpv7.EndpointID) bool {
 	return true
 }
 
-// H18_Spray: spray-and-wait, budget L = 1..4, 0..3 connected peers, a locally originated bundle; steps of
+// H18_Spray: spray-and-wait, budget L = 1..maxL, 0..maxpeers connected peers (quick 6 and 5, thorough 8 and 6), a locally originated bundle; steps of
 // {select senders, one selected transmission fails}: the per-bundle invariant remaining + |peers holding or being
 // sent a copy| = L with remaining >= 1 holds after every step; at most remaining-1 peers are selected, none twice;
 // a failure gives its copy back and makes exactly that peer eligible again.
 func H18_Spray() {
-	L := uint64(verif.Size("L", 1, 4))
-	k := verif.Size("peers", 0, 3)
+	L := uint64(verif.Size("L", 1, verif.Param("maxL", 4)))
+	k := verif.Size("peers", 0, verif.Param("maxpeers", 3))
 	var log []sendRec
 	c, peers := coreWithPeers("spray", L, k, &log)
 	defer c.Close()
@@ -64,7 +64,7 @@ func H18_Spray() {
 	sw.NotifyNewBundle(bp)
 	md := func() sprayMetaData { return sw.bundleData[bp.Id] }
 	verif.Assert(md().remainingCopies == L && len(md().sent) == 0, "a local bundle starts with the full budget")
-	steps := verif.Size("steps", 1, 3)
+	steps := verif.Size("steps", 1, verif.Param("maxsteps", 3))
 	for s := 0; s < steps; s++ {
 		before := md()
 		if verif.Bool(nm("select", s)) || len(before.sent) == 0 {
